@@ -30,7 +30,7 @@ ASSUMPTIONS = [
     'tolerance 1e-9 on every relation',
 ]
 
-N = {'quick': dict(rot=12000, tri=25000, emb=12), 'thorough': dict(rot=600000, tri=1500000, emb=400)}
+N = {'quick': dict(rot=12000, tri=25000, emb=12), 'thorough': dict(rot=3000000, tri=6000000, emb=1500)}
 BATCH = 500
 _cov = cover.Coverage()
 
